@@ -16,6 +16,10 @@
 //!      of the remainder with its commitment can reject
 //!   g  the same with the degree pushed above the bound (the degree bound also rejects)
 //!   i  the last queried layer removed from the proof (structural inconsistency)
+//!   k  ADAPTIVE layer values: for an input above the bound, one off-path sibling in every
+//!      queried coset of the last layer is solved so that the folded value meets the committed
+//!      (truncated) remainder — every folding check then passes, so only the comparison of the
+//!      layer values with the layer commitment can reject
 //!
 //! Edited data is served through `AdvChannel`, which implements only the required accessors
 //! of `VerifierChannel`; the provided `read_layer_queries` / `read_remainder` (the library's
@@ -93,6 +97,8 @@ enum Move {
     RemainderOverDegree { c: u8 },
     /// i
     DropLastLayer,
+    /// k
+    LastLayerSolve,
 }
 
 impl Move {
@@ -110,11 +116,12 @@ impl Move {
             Move::RemainderForgery { .. } => "f",
             Move::RemainderOverDegree { .. } => "g",
             Move::DropLastLayer => "i",
+            Move::LastLayerSolve => "k",
         }
     }
     fn to_json(&self) -> Value {
         match self {
-            Move::Present | Move::Untruncated | Move::DropLastLayer => json!({"id": self.id()}),
+            Move::Present | Move::Untruncated | Move::DropLastLayer | Move::LastLayerSolve => json!({"id": self.id()}),
             Move::CorruptCommitted { at, delta } | Move::CorruptClaimed { at, delta } => json!({"id": self.id(), "at": at, "delta": delta}),
             Move::UnderstateSameDomain { max_degree } => json!({"id": self.id(), "max_degree": max_degree}),
             Move::UnderstateHigherBlowup { shift } => json!({"id": self.id(), "shift": shift}),
@@ -131,6 +138,7 @@ impl Move {
             "present" => Move::Present,
             "h" => Move::Untruncated,
             "i" => Move::DropLastLayer,
+            "k" => Move::LastLayerSolve,
             "c-committed" => Move::CorruptCommitted { at: at()?, delta: u("delta")? as u8 },
             "c-claimed" => Move::CorruptClaimed { at: at()?, delta: u("delta")? as u8 },
             "d-same-domain" => Move::UnderstateSameDomain { max_degree: u("max_degree")? as usize },
@@ -237,6 +245,9 @@ struct Out {
     corrupt_single: u64,
     corrupt_double: u64,
     codec_conformance: u64,
+    solved_built: u64,
+    solved_skipped_whole_coset_queried: u64,
+    fold_formula_validated: u64,
 }
 
 impl Out {
@@ -263,6 +274,9 @@ impl Out {
         self.corrupt_single += o.corrupt_single;
         self.corrupt_double += o.corrupt_double;
         self.codec_conformance += o.codec_conformance;
+        self.solved_built += o.solved_built;
+        self.solved_skipped_whole_coset_queried += o.solved_skipped_whole_coset_queried;
+        self.fold_formula_validated += o.fold_formula_validated;
     }
     fn part(&mut self, name: &'static str) -> &mut Sweep {
         self.parts.entry(name).or_insert_with(Sweep::new)
@@ -279,6 +293,7 @@ const PART_F0: &str = "f0: single remainder coefficient changed";
 const PART_F: &str = "f: adaptive remainder substitution within the degree bound";
 const PART_G: &str = "g: adaptive remainder substitution above the degree bound";
 const PART_I: &str = "i: last layer removed from the proof";
+const PART_K: &str = "k: last-layer sibling solved to meet the committed remainder";
 
 struct Ctx<'a> {
     cfg: &'a Cfg,
@@ -386,6 +401,59 @@ fn vanishing<E: FieldElement>(roots: &[E::BaseField], c: E, shift: usize) -> Vec
     out
 }
 
+/// L_j(α) = ∏_{m≠j} (α − x_m)/(x_j − x_m), by definition
+fn lagrange_at<E: FieldElement>(xs: &[E::BaseField], j: usize, alpha: E) -> E {
+    let mut num = E::ONE;
+    let mut den = E::BaseField::ONE;
+    for (m, x) in xs.iter().enumerate() {
+        if m != j {
+            num *= alpha - E::from(*x);
+            den *= xs[j] - *x;
+        }
+    }
+    num * E::from(den.inv())
+}
+
+/// For the last FRI layer of a transcript: per queried coset (in the library's order) the
+/// positions of the coset members in that layer's domain, the value the coset folds to under α
+/// (interpolate the N points, evaluate at α — by definition), and the last-layer point it must
+/// match.
+struct LastLayerView<E: FieldElement> {
+    /// positions queried in this layer
+    layer_positions: Vec<usize>,
+    row: usize,
+    folded_positions: Vec<usize>,
+    lagrange: Vec<Vec<E>>,
+    folds: Vec<E>,
+    last_points: Vec<E::BaseField>,
+}
+
+fn last_layer_view<B: StarkField, E: FieldElement<BaseField = B>>(positions: &[usize], domain: usize, folding: usize, layers: usize, values: &[E], alpha: E) -> LastLayerView<E> {
+    let mut cur = positions.to_vec();
+    let mut d = domain;
+    for _ in 0..layers - 1 {
+        cur = fold_in_order(&cur, d / folding);
+        d /= folding;
+    }
+    let row = d / folding;
+    let folded = fold_in_order(&cur, row);
+    let xs = coset::<B>(d);
+    let xs_last = coset::<B>(row);
+    let mut lagrange = vec![];
+    let mut folds = vec![];
+    for (ci, &fp) in folded.iter().enumerate() {
+        let pts: Vec<B> = (0..folding).map(|j| xs[fp + j * row]).collect();
+        let lag: Vec<E> = (0..folding).map(|j| lagrange_at::<E>(&pts, j, alpha)).collect();
+        let mut f = E::ZERO;
+        for j in 0..folding {
+            f += values[ci * folding + j] * lag[j];
+        }
+        lagrange.push(lag);
+        folds.push(f);
+    }
+    LastLayerView { layer_positions: cur, row, last_points: folded.iter().map(|&p| xs_last[p]).collect(), folded_positions: folded, lagrange, folds }
+}
+
 // ONE TRANSCRIPT
 // ================================================================================================
 
@@ -450,6 +518,19 @@ where
             (Ok(Ok(())), Ok(Ok(()))) => {
                 out.honest_validated += 1;
                 out.honest_transcripts_multi_layer += (sh.layers >= 2) as u64;
+                // the harness's by-definition folding of the last layer must land on the honest
+                // remainder (validates the formula move k relies on)
+                if sh.layers >= 1 {
+                    let ch = AdvChannel::<E, H>::from_proof(&proved.proof, &proved.commitments, domain, cfg.folding).unwrap_or_else(|e| mck::report::machinery(&e));
+                    let view = last_layer_view::<B, E>(&positions, domain, cfg.folding, sh.layers, &ch.queries[sh.layers - 1], proved.alphas[sh.layers - 1]);
+                    let r_lo: Vec<E> = ch.remainder.iter().rev().copied().collect();
+                    for (f, x) in view.folds.iter().zip(&view.last_points) {
+                        if *f != eval_naive(&r_lo, *x) {
+                            mck::report::machinery(&format!("C09: harness folding of the last layer does not meet the honest remainder for {}", cx.key(&positions, &Move::Present)));
+                        }
+                    }
+                    out.fold_formula_validated += 1;
+                }
             },
             _ => {
                 let s = out.part(PART_E);
@@ -470,6 +551,9 @@ where
                 Group::NotLowDegree => {
                     v.push(Move::Present);
                     v.push(Move::Untruncated);
+                    if sh.layers >= 1 {
+                        v.push(Move::LastLayerSolve);
+                    }
                 },
                 Group::Corrupt => {
                     let cap = if thorough { 12 } else { 6 };
@@ -754,6 +838,39 @@ where
                     }
                 }
             },
+            // ---- k ---------------------------------------------------------------------------
+            Move::LastLayerSolve => {
+                if sh.layers == 0 {
+                    continue;
+                }
+                let mut ch = AdvChannel::<E, H>::from_proof(&proved.proof, &proved.commitments, domain, cfg.folding).unwrap_or_else(|e| mck::report::machinery(&e));
+                let l = sh.layers - 1;
+                let view = last_layer_view::<B, E>(&positions, domain, cfg.folding, sh.layers, &ch.queries[l], proved.alphas[l]);
+                let r_lo: Vec<E> = ch.remainder.iter().rev().copied().collect();
+                let mut changed = false;
+                let mut blocked = false;
+                for (ci, &fp) in view.folded_positions.iter().enumerate() {
+                    let target = eval_naive(&r_lo, view.last_points[ci]);
+                    if target == view.folds[ci] {
+                        continue;
+                    }
+                    match (0..cfg.folding).find(|j| !view.layer_positions.contains(&(fp + j * view.row))) {
+                        None => blocked = true,
+                        Some(jf) => {
+                            ch.queries[l][ci * cfg.folding + jf] += (target - view.folds[ci]) / view.lagrange[ci][jf];
+                            changed = true;
+                        },
+                    }
+                }
+                if blocked || !changed {
+                    out.solved_skipped_whole_coset_queried += blocked as u64;
+                    continue;
+                }
+                out.solved_built += 1;
+                let (o, q, p) = (opts(), qvals.clone(), positions.clone());
+                let res = mck::catch(move || run_verifier::<B, E, H, _>(&mut ch, o, n - 1, &q, &p));
+                judge(&mut out, PART_K, "accepted:layer-value-substitution", &cx, &positions, mv, "input above the bound; in every queried coset of the last layer one sibling off the query path is replaced so that the coset folds onto the committed remainder — only the layer commitment can reject", res);
+            },
             // ---- i ---------------------------------------------------------------------------
             Move::DropLastLayer => {
                 if raw.layers.is_empty() {
@@ -824,7 +941,7 @@ fn bases() -> Vec<Cfg> {
 
 /// position multisets of the C09 lattice
 fn positions_c09(domain: usize, folding: usize, thorough: bool) -> Vec<Pos> {
-    let row = domain / folding;
+    let row = (domain / folding).max(1);
     let mut v: Vec<Pos> = positions_small(domain, folding).into_iter().filter(|p| matches!(p, Pos::Explicit(_))).collect();
     for c in [2usize, 3, 7, 32] {
         if c < domain {
@@ -836,7 +953,9 @@ fn positions_c09(domain: usize, folding: usize, thorough: bool) -> Vec<Pos> {
             v.push(Pos::Explicit(vec![i]));
         }
         for i in 0..row {
-            v.push(Pos::Explicit(vec![i, i + row]));
+            if i + row < domain {
+                v.push(Pos::Explicit(vec![i, i + row]));
+            }
         }
     }
     if thorough && domain <= 32 {
@@ -930,7 +1049,10 @@ pub fn run(args: &Args) {
         let u = &units[i];
         let mut o = Out::default();
         for p in &u.positions {
-            o.absorb(dispatch_transcript(&u.cfg, &u.input, p, u.group, None, seed, thorough));
+            // a panic that escapes the per-call guards is a harness failure, never a verdict
+            let t = mck::catch(|| dispatch_transcript(&u.cfg, &u.input, p, u.group, None, seed, thorough))
+                .unwrap_or_else(|e| mck::report::machinery(&format!("harness panicked at {} ({}) in {}/{}/{}", e.location, e.message, u.cfg.key(), u.input.key(), p.key())));
+            o.absorb(t);
         }
         o
     });
@@ -965,6 +1087,9 @@ pub fn run(args: &Args) {
         "c_single_corruptions": total.corrupt_single,
         "c_double_corruptions": total.corrupt_double,
         "prover_byte_strings_reproduced_by_the_harness_codec": total.codec_conformance,
+        "k_solved_last_layers_built": total.solved_built,
+        "k_skipped_a_whole_coset_was_queried": total.solved_skipped_whole_coset_queried,
+        "honest_transcripts_on_which_the_harness_folding_formula_met_the_remainder": total.fold_formula_validated,
     }));
     report.sample(json!({"move": "f", "cfg": bases[2].to_json(), "input": Poly::Counter(32).to_json(), "positions": [5, 21], "what": "r' = r + c·(x − x_5) (5 and 21 fold to the same last-layer point 5 of 16); must be rejected with RemainderCommitmentMismatch"}));
     report.sample(json!({"move": "e", "cfg": bases[0].to_json(), "positions": [9], "layer": 1, "index": 1, "what": "sibling of the queried value in layer 1 → +1; must be rejected (LayerCommitmentMismatch)"}));
